@@ -122,20 +122,11 @@ Corollary isort_perm_invariant l l' e :
 Proof. intros P P' S. rewrite (isort_recovers l e P S), (isort_recovers l' e P' S). reflexivity. Qed.
 End Sort.
 
-(* the same through seq_sort (sort.Sort with elemListSeq.Less): no panic when every value is a map *)
-Lemma forallb_perm {A} (f : A -> bool) l l' : Permutation l l' -> forallb f l = forallb f l'.
-Proof.
-  induction 1; cbn; try congruence.
-  - destruct (f y), (f x); reflexivity.
-Qed.
-
+(* the same through seq_sort (sort.Sort with elemListSeq.Less) *)
 Theorem seq_sort_recovers {A} (o : opts) (val : A -> value) (l e : list A) :
   Permutation l e ->
   StronglySorted (klt (fun x => seq_num o (val x))) e ->
-  forallb (fun x => is_map (val x)) e = true ->
   seq_sort o val l = Ok e.
 Proof.
-  intros P S M. unfold seq_sort.
-  rewrite (forallb_perm _ _ _ P), M. rewrite andb_false_r.
-  f_equal. apply isort_recovers; assumption.
+  intros P S. unfold seq_sort. f_equal. apply isort_recovers; assumption.
 Qed.
